@@ -188,9 +188,19 @@ class Mod:
             elif isinstance(st, ast.ClassDef):
                 self._bind(st.name, ("class", st, st))
             elif isinstance(st, ast.Assign):
+                val_ = st.value
+                # X = A if <condition fixed for the installed NumPy> else B
+                for _ in range(4):
+                    if isinstance(val_, ast.IfExp):
+                        v_ = static_module_cond(self, val_.test)
+                        if v_ is None:
+                            break
+                        val_ = val_.body if v_ else val_.orelse
+                    else:
+                        break
                 for t in st.targets:
                     if isinstance(t, ast.Name):
-                        self._bind(t.id, ("assign", st.value, st))
+                        self._bind(t.id, ("assign", val_, st))
                     elif isinstance(t, ast.Tuple) and isinstance(st.value, ast.Tuple) and len(t.elts) == len(
                         st.value.elts
                     ):
@@ -319,13 +329,16 @@ class Repo:
         return None  # classes other than int types, modules etc. are not re-exported
 
     # ---- resolution
-    def resolve(self, mod, name, _seen=None):
+    def resolve(self, mod, name, _seen=None, before=None):
         _seen = _seen if _seen is not None else set()
-        key = (mod.name, name)
+        key = (mod.name, name, before)
         if key in _seen:
             return None
         _seen.add(key)
         bl = mod.top.get(name)
+        if bl and before is not None:
+            # the binding in force at a module-level statement: `list_ = list` written above `class list` is the builtin
+            bl = [b for b in bl if getattr(b[-1], "lineno", 0) < before]
         if bl:
             b = bl[-1]
             if b[0] == "import_mod":
@@ -351,7 +364,12 @@ class Repo:
                 # follow plain aliases  X = Y / X = a.b
                 if isinstance(val, (ast.Name, ast.Attribute)):
                     if not (isinstance(val, ast.Name) and val.id == name):
-                        r = self.resolve_expr(mod, val, _seen)
+                        if isinstance(val, ast.Name) and len(mod.top.get(val.id) or ()) > 1 and any(getattr(x[-1], "lineno", 0) > getattr(b[-1], "lineno", 0) for x in mod.top[val.id]):
+                            r = self.resolve(mod, val.id, _seen, before=getattr(b[-1], "lineno", None))
+                        elif isinstance(val, ast.Name) and mod.top.get(val.id) and all(getattr(x[-1], "lineno", 0) > getattr(b[-1], "lineno", 0) for x in mod.top[val.id]):
+                            r = self.resolve(mod, val.id, _seen, before=getattr(b[-1], "lineno", None))
+                        else:
+                            r = self.resolve_expr(mod, val, _seen)
                         if r is not None:
                             return r
                     else:
@@ -414,6 +432,14 @@ class Repo:
             if f is not None and f.qual == "builtins.getattr" and len(e.args) == 2 and isinstance(e.args[1], ast.Constant) and isinstance(e.args[1].value, str):
                 return self.resolve_expr(mod, ast.Attribute(value=e.args[0], attr=e.args[1].value, ctx=ast.Load()), _seen)
             return None
+        if isinstance(e, ast.Subscript) and isinstance(e.value, ast.Name) and isinstance(e.slice, ast.Constant) and isinstance(e.slice.value, str):
+            # NS = vars(anp) / NS = anp.__dict__ ; NS["ravel"]
+            bl = mod.top.get(e.value.id)
+            if bl and len(bl) == 1 and bl[-1][0] == "assign":
+                v_ = bl[-1][1]
+                is_ns = (isinstance(v_, ast.Call) and isinstance(v_.func, ast.Name) and v_.func.id == "vars" and len(v_.args) == 1) or (isinstance(v_, ast.Attribute) and v_.attr == "__dict__")
+                if is_ns:
+                    return self.resolve_expr(mod, ast.Subscript(value=v_, slice=e.slice, ctx=ast.Load()), _seen)
         if isinstance(e, ast.Subscript):
             # vars(anp)["ravel"] / globals-like namespace dict of a module
             if (
